@@ -31,6 +31,9 @@ def _cases(dss, rng, stride=1, schemes=None):
     # the user-facing selector additionally in an environment where the CPLEX API is present
     cs += ac.cases(dss, ["Exact(opt)", "Exact(noopt)"], schemes, env="standin",
                    every={"Exact(opt)": stride, "Exact(noopt)": stride})
+    # ... and where a cplex package is present but cannot be imported
+    cs += ac.cases(dss, ["Exact(opt)", "Exact(noopt)"], schemes, env="brokencplex", flags=(1,),
+                   every={"Exact(opt)": stride * 4, "Exact(noopt)": stride * 4})
     return cs
 
 
